@@ -21,5 +21,16 @@ print(p.stdout.decode("utf-8", "replace")[-600:])
 if base is None:
   print("passed: %d (no baseline file to compare)" % len(passed)); sys.exit(0)
 missing = [t for t in base["stable_pass"] if t not in passed]
+# sleep-based tests can flake under load: re-run each missing test alone, twice at most
+for t in list(missing):
+  mod, name = t.split("::")
+  target = mod.replace(".", "/") + ".py::" + name
+  for _ in range(2):
+    r = subprocess.run(["/venv/bin/python", "-m", "pytest", "-q", "-p", "no:cacheprovider", "--timeout=900", target],
+                       cwd=repo, env=env, stdout=subprocess.PIPE, stderr=subprocess.STDOUT)
+    if r.returncode == 0:
+      print("re-run alone passed: %s" % t)
+      missing.remove(t)
+      break
 print("passed %d; baseline stable %d; missing from baseline: %s" % (len(passed), len(base["stable_pass"]), missing))
 sys.exit(1 if missing else 0)
